@@ -1352,7 +1352,12 @@ func (schema *Schema) visitNotOperation(settings *schemaValidationSettings, valu
 		if v == nil {
 			return foundUnresolvedRef(ref.Ref)
 		}
-		if err := v.visitJSON(settings, value); err == nil {
+		// make a deep copy to protect origin value from being injected default value that defined in the "not" schema
+		tempValue := value
+		if settings.asreq || settings.asrep {
+			tempValue = deepcopy.Copy(value)
+		}
+		if err := v.visitJSON(settings, tempValue); err == nil {
 			if settings.failfast {
 				return errSchema
 			}
